@@ -990,7 +990,23 @@ func (p *pipe) Receive(ctx context.Context, subscribe Completed, fn func(message
 	}
 	if ch, cancel := sb.Subscribe(args, hook); ch != nil {
 		defer cancel()
-		if err = p.Do(ctx, subscribe).Error(); err == nil {
+		// The reply to the subscribe command is delivered by the goroutine that also fills ch. If the connection
+		// already receives messages for one of these channels (an earlier or a cancelled Receive), more than
+		// cap(ch) of them can arrive before that reply: keep consuming ch while waiting, or that goroutine blocks
+		// on ch forever and the whole connection with it.
+		done := make(chan error, 1)
+		go func() { done <- p.Do(ctx, subscribe).Error() }()
+	wait:
+		select {
+		case err = <-done:
+		case msg, ok := <-ch:
+			if ok {
+				fn(msg)
+				goto wait
+			}
+			err = <-done
+		}
+		if err == nil {
 			if ctxCh := ctx.Done(); ctxCh == nil {
 				for msg := range ch {
 					fn(msg)
